@@ -169,53 +169,9 @@ def post_handshake(rng, c):
     return kind
 
 
-def one_case(rng, force=None):
-    """→ (items, keylog lines | None, argv, opt dict, description)"""
-    force = dict(force or {})
-    nq = force.get("nq", rng.choice([1, 1, 1, 2, 2, 3]))
-    sports = [rng.choice([443, 443, 443, 44330, 8443]) for _ in range(nq)]
-    conns, feats = [], []
-    for i in range(nq):
-        feat = {"endpoints": {"sport": sports[i]}, **force.get("features", {})}
-        same = rng.random() < force.get("same_cid", 0.05)
-        if same:
-            # RFC 9000 §5.1: each endpoint picks its own connection IDs; nothing keeps both from picking the same bytes
-            n = rng.choice([1, 4, 8])
-            feat.update({"scid_c_len": n, "scid_s_len": n, "retry": False, "prefix_cid": False})
-            with same_cid_sender():
-                c, f = gen_quic.random_connection(rng, i, features=feat)
-        else:
-            c, f = gen_quic.random_connection(rng, i, features=feat)
-        f["same_cid"] = same
-        f["post"] = post_handshake(rng, c) if rng.random() < force.get("post", 0.3) else "none"
-        conns.append(c)
-        feats.append(f)
-    merged = []
-    for i, c in enumerate(conns):
-        merged += [(ts, i, k, fr) for k, (_, ts, fr) in enumerate(c.items)]
-    # TLS over TCP next to it (the other half of the program) in some captures
-    ntls = force.get("ntls", rng.choice([0, 0, 0, 1, 2]))
-    tls_keys, tls_desc = [], []
-    if ntls:
-        combos = [e2e.random_combo(rng) for _ in range(ntls)]
-        sc = e2e.Scenario(rng, combos, sports=[rng.choice([443, 44330]) for _ in range(ntls)])
-        # same clock as the QUIC connections: TLS packets keep their order, shifted onto the QUIC time base
-        t0 = min(m[0] for m in merged) - sc.items[0][1] + rng.randrange(0, 200_000)
-        merged += [(ts + t0, 100, k, fr) for k, (_, ts, fr) in enumerate(sc.items)]
-        tls_keys = list(sc.keylog)
-        tls_desc = [(hex(c), v, e) for c, v, e in combos]
-    merged.sort(key=lambda m: (m[0], m[1], m[2]))
-    items = [("pkt", ts, fr) for ts, _, _, fr in merged]
-    owner = [m[1] for m in merged]
-    # noise: unrelated TCP/UDP, garbage "QUIC" to port 443, garbage on a live connection's 4-tuple
-    for f in pipeline_corr.noise_frames(rng, rng.randrange(0, 4)):
-        k = rng.randrange(0, len(items) + 1)
-        ts = items[k - 1][1] + 1 if k else items[0][1] - 1
-        items.insert(k, ("pkt", ts, f))
-        owner.insert(k, -1)
-    keylines = [c.keylog_lines() for c in conns]
+def apply_fault(rng, fault, items, owner, keylines, nq):
+    """one fault, chosen by `fault` in [0, 1); mutates its arguments; → name of what was done"""
     what = "none"
-    fault = rng.random() if "fault" not in force else force["fault"]
     uidx = udp_indices(items)
     if fault < 0.08:
         i = rng.randrange(nq)
@@ -275,6 +231,74 @@ def one_case(rng, force=None):
             items.insert(k, ("pkt", ts - 1, rebuild_udp(fr, bytes(pl[:rng.randrange(7, len(pl) + 1)]))))
             owner.insert(k, owner[k])
             what = "other-version-first"
+    elif fault < 0.60 and len(uidx) >= 2:
+        # two datagrams of the capture glued into one (coalescing the sender never did; second part may be a short header)
+        k, j = rng.sample(uidx, 2)
+        _, ts, fr = items[k]
+        a, b = wire.parse_frame(fr)["payload"], wire.parse_frame(items[j][2])["payload"]
+        items[k] = ("pkt", ts, rebuild_udp(fr, (a + b)[:1400]))
+        what = "splice"
+    elif fault < 0.64 and len(uidx) >= 2:
+        # late arrival: a datagram captured several datagrams after its place
+        k = rng.choice(uidx[:-1])
+        it, ow = items.pop(k), owner.pop(k)
+        j = min(len(items), k + rng.randrange(1, 6))
+        items.insert(j, ("pkt", items[j - 1][1] + 1, it[2]))
+        owner.insert(j, ow)
+        what = "late"
+    return what
+
+
+def one_case(rng, force=None):
+    """→ (items, keylog lines | None, argv, opt dict, description)"""
+    force = dict(force or {})
+    nq = force.get("nq", rng.choice([1, 1, 1, 2, 2, 3]))
+    sports = [rng.choice([443, 443, 443, 44330, 8443]) for _ in range(nq)]
+    conns, feats = [], []
+    for i in range(nq):
+        feat = {"endpoints": {"sport": sports[i]}, **force.get("features", {})}
+        same = rng.random() < force.get("same_cid", 0.05)
+        if same:
+            # RFC 9000 §5.1: each endpoint picks its own connection IDs; nothing keeps both from picking the same bytes
+            n = rng.choice([1, 4, 8])
+            feat.update({"scid_c_len": n, "scid_s_len": n, "retry": False, "prefix_cid": False})
+            with same_cid_sender():
+                c, f = gen_quic.random_connection(rng, i, features=feat)
+        else:
+            c, f = gen_quic.random_connection(rng, i, features=feat)
+        f["same_cid"] = same
+        f["post"] = post_handshake(rng, c) if rng.random() < force.get("post", 0.3) else "none"
+        conns.append(c)
+        feats.append(f)
+    merged = []
+    for i, c in enumerate(conns):
+        merged += [(ts, i, k, fr) for k, (_, ts, fr) in enumerate(c.items)]
+    # TLS over TCP next to it (the other half of the program) in some captures
+    ntls = force.get("ntls", rng.choice([0, 0, 0, 1, 2]))
+    tls_keys, tls_desc = [], []
+    if ntls:
+        combos = [e2e.random_combo(rng) for _ in range(ntls)]
+        sc = e2e.Scenario(rng, combos, sports=[rng.choice([443, 44330]) for _ in range(ntls)])
+        # same clock as the QUIC connections: TLS packets keep their order, shifted onto the QUIC time base
+        t0 = min(m[0] for m in merged) - sc.items[0][1] + rng.randrange(0, 200_000)
+        merged += [(ts + t0, 100, k, fr) for k, (_, ts, fr) in enumerate(sc.items)]
+        tls_keys = list(sc.keylog)
+        tls_desc = [(hex(c), v, e) for c, v, e in combos]
+    merged.sort(key=lambda m: (m[0], m[1], m[2]))
+    items = [("pkt", ts, fr) for ts, _, _, fr in merged]
+    owner = [m[1] for m in merged]
+    # noise: unrelated TCP/UDP, garbage "QUIC" to port 443, garbage on a live connection's 4-tuple
+    for f in pipeline_corr.noise_frames(rng, rng.randrange(0, 4)):
+        k = rng.randrange(0, len(items) + 1)
+        ts = items[k - 1][1] + 1 if k else items[0][1] - 1
+        items.insert(k, ("pkt", ts, f))
+        owner.insert(k, -1)
+    keylines = [c.keylog_lines() for c in conns]
+    if force.get("storm", rng.random() < 0.08):
+        done = [apply_fault(rng, rng.random() * 0.64, items, owner, keylines, nq) for _ in range(rng.randrange(3, 9))]
+        what = "storm(" + ",".join(sorted(set(done))) + ")"
+    else:
+        what = apply_fault(rng, rng.random() if "fault" not in force else force["fault"], items, owner, keylines, nq)
     # key material: the -s file, or decryption-secrets blocks inside the capture (QUIC reads the key log ONLINE: a block
     # that comes after the handshake is too late for it)
     keylog = [l for ls in keylines for l in ls] + tls_keys
@@ -352,7 +376,7 @@ def correspond(ctx, n=None, force=None):
             nudp = sum(1 for x in rows if x.startswith("u:"))
             ntcp = sum(1 for x in rows if x.startswith("t:"))
             ctx.count(("qpipeline", str(desc), len(items)), nontrivial=nudp > 0)
-            ctx.hist("qp-fault", desc["fault"])
+            ctx.hist("qp-fault", desc["fault"].split("(")[0])
             ctx.hist("qp-dsb", desc["dsb"])
             ctx.hist("qp-result", ("udp" if nudp else "") + ("+tcp" if ntcp else "") or "empty")
             ctx.hist("qp-udp-frames", "0" if nudp == 0 else "1-5" if nudp <= 5 else "6-20" if nudp <= 20 else ">20")
